@@ -62,6 +62,35 @@ fixed("F03e", "C03", "5280f6c",
 fixed("F04a", "C04", "b3a2e67",
       "get_accepted_words dropped words whose run passes through a final state: DFA 0-a->1*-b->2-c->1 yielded only 'a'",
       {"bounds": [5, 3], "fa": fa("dfa", [[0, "a", 1], [1, "b", 2], [2, "c", 1]], [0], [1])})
+# ------------------------------------------------------------------ C05
+fixed("F05a", "C05", "5634365",
+      "Regex(\"( )\") raised IndexError instead of MisformedRegexError",
+      {"kind": "ill", "tokens": ["(", ")"], "text": "( )"})
+fixed("F05b", "C05", "6779d93",
+      "str(Regex(\"\\\\*\")) printed the escaped operator bare and did not parse back",
+      {"kind": "wf", "ast": ["sym", "*"], "text": "\\*", "ast2": ["sym", "a"], "text2": "a"})
+# ------------------------------------------------------------------ C08
+fixed("F08a", "C08", "6484a56",
+      "contains() never returned when a variable and a terminal share their value (S -> \"TER:S\" S | a)",
+      {"g": {"start": "S", "how": "ctor", "vpool": "std", "tpool": "shared",
+             "prods": [["S", [["T", "S"], ["V", "S"]]], ["S", [["T", "a"]]]]}})
+F[-1]["hangs"] = True
+fixed("F08b", "C08", "22c42bd",
+      "the normal form reused the name a#CNF# of an existing variable: contains accepted a a a for S -> a a | S X | $, X -> S with X named a#CNF#",
+      {"g": {"start": "S", "how": "ctor", "vpool": "fresh", "tpool": "ab",
+             "prods": [["S", []], ["S", [["V", "S"], ["V", "a#CNF#"]]], ["a#CNF#", [["V", "S"]]],
+                       ["S", [["T", "a"], ["T", "a"]]]]}})
+# ------------------------------------------------------------------ C09
+fixed("F09a", "C09", "9a30931",
+      "to_normal_form kept A -> A (fast path counted unit pairs): is_normal_form() False on the result",
+      {"g": {"start": "S", "how": "ctor", "vpool": "std", "tpool": "ab",
+             "prods": [["S", [["V", "S"]]], ["S", [["T", "a"]]]]}})
+# ------------------------------------------------------------------ C10
+fixed("F10a", "C10", "72cd3ae",
+      "union/concatenate/closure/substitute raised KeyError(None) on a grammar without start symbol (CFG())",
+      {"g1": {"start": "S", "how": "ctor", "vpool": "std", "tpool": "ab", "prods": [["S", [["T", "a"]]]]},
+       "g2": {"start": None, "prods": [], "how": "ctor", "vpool": "std", "tpool": "ab"},
+       "sub": {"first": 0, "second_self": False}})
 # ------------------------------------------------------------------ C06
 fixed("F06a", "C06", "2262869",
       "to_regex raised ValueError on automata with two start states",
